@@ -837,7 +837,8 @@ def build_bomb(case):
     fsize = (gt_sector + 2 + 1) * SECTOR + 1024
     flags = 1 | F_COMPRESSED | F_LBA
     chunks = {
-        0: kdmv_header(flags, gs, gs, 0, 0, 512, GD_AT_END, compress=1),
+        # (the copy at sector 0 only says where the real header is: its other fields may be stale)
+        0: kdmv_header(flags, gs, case.get("front_grain_size", gs), 0, 0, 512, GD_AT_END, compress=1),
         8 * SECTOR: hdr + comp,
         gt_sector * SECTOR: struct.pack("<I", 8) + b"\x00" * (2048 - 4),
         (gt_sector + 1) * SECTOR: struct.pack("<I", gt_sector) + b"\x00" * 508,
